@@ -85,6 +85,15 @@ pub proof fn lemma_c18_offset(val: usize, section: SectionId, size: u8, pos: nat
 {
     assert(val <= 0x7fff_ffff_ffff_ffffusize ==> (val as i64) as int == val as int) by (bit_vector);
     assert(val > 0x7fff_ffff_ffff_ffffusize ==> (val as i64) as int == val as int - 0x1_0000_0000_0000_0000) by (bit_vector);
+    let a = (val as i64) as int;
+    if a >= 0 {
+        vstd::arithmetic::div_mod::lemma_small_mod(a as nat, wpow(size as nat));
+    } else {
+        assert(size == 8);
+        vstd::arithmetic::div_mod::lemma_mod_multiples_vanish(1, a, 0x1_0000_0000_0000_0000);
+        vstd::arithmetic::div_mod::lemma_small_mod((a + 0x1_0000_0000_0000_0000) as nat, 0x1_0000_0000_0000_0000);
+        assert(0x1_0000_0000_0000_0000 * 1 + a == a + 0x1_0000_0000_0000_0000);
+    }
 }
 
 pub proof fn lemma_c18_offset_at(offset: usize, val: usize, section: SectionId, size: u8, pos: nat)
@@ -98,6 +107,15 @@ pub proof fn lemma_c18_offset_at(offset: usize, val: usize, section: SectionId, 
 {
     assert(val <= 0x7fff_ffff_ffff_ffffusize ==> (val as i64) as int == val as int) by (bit_vector);
     assert(val > 0x7fff_ffff_ffff_ffffusize ==> (val as i64) as int == val as int - 0x1_0000_0000_0000_0000) by (bit_vector);
+    let a = (val as i64) as int;
+    if a >= 0 {
+        vstd::arithmetic::div_mod::lemma_small_mod(a as nat, wpow(size as nat));
+    } else {
+        assert(size == 8);
+        vstd::arithmetic::div_mod::lemma_mod_multiples_vanish(1, a, 0x1_0000_0000_0000_0000);
+        vstd::arithmetic::div_mod::lemma_small_mod((a + 0x1_0000_0000_0000_0000) as nat, 0x1_0000_0000_0000_0000);
+        assert(0x1_0000_0000_0000_0000 * 1 + a == a + 0x1_0000_0000_0000_0000);
+    }
 }
 
 /// C18, symbolic addresses: with the symbol resolved to `symval`, the relocated field equals what the plain writer
